@@ -358,6 +358,11 @@ addm('C10','r5-adjacency-from-segment',[(SY,"		lastFlag = s[len(s)-1] == endByte
 add('C12','r5-recovery-wipes-headers',RO,"				r.recoverFunc(w, err)","				clear(w.Header())\n				r.recoverFunc(w, err)",'violation:C12.R13')
 add('C13','r5-lookup-resets-params',TR,"		return nil, tree.notFound, false","		ctx.Reset()\n		return nil, tree.notFound, false",'violation:C13.R13')
 
+# ---------------- second hunt: D51-D53 re-introduced
+add('C13','hunt2-and-keeps-callers-slice',MA,"func AndMatcher(m ...Matcher) Matcher {\n	m = slices.Clone(m) // 不能保留调用方的 m，调用方可能会在之后修改其内容。\n","func AndMatcher(m ...Matcher) Matcher {\n",'violation:C13.R14')
+add('C12','hunt2-cors-keeps-callers-slices',OP,"	origin, allowHeaders, exposedHeaders = slices.Clone(origin), slices.Clone(allowHeaders), slices.Clone(exposedHeaders)\n","",'violation:C12.R15')
+addm('C17','hunt2-split-inside-a-character',[(SG,"	\"unicode/utf8\"\n",""),(SG,"		if l <= 0 || l >= len(seg.Value) || utf8.RuneStart(seg.Value[l]) {\n			return l\n		}\n\n		for l > 0 && !utf8.RuneStart(seg.Value[l]) {\n			l--\n		}\n","")],'violation:C17.R11')
+
 for pid,entries in C.items():
     os.makedirs(os.path.join(base,pid),exist_ok=True)
     json.dump(entries,open(os.path.join(base,pid,'entries.json'),'w'),indent=1,ensure_ascii=False)
